@@ -16,6 +16,7 @@
   are kept in ONE list, in the order `for namespace_set in namespace_element_sets: for x in namespace_set`
   (for an Operation: input, output, in-output variables).
 -/
+import Basyx.Gen.TreeCfg
 namespace Basyx.Tree
 
 abbrev Str := List Char
@@ -135,8 +136,10 @@ def digitVal (c : Char) : Option Nat :=
   else if 0x660 ≤ c.toNat ∧ c.toNat ≤ 0x669 then some (c.toNat - 0x660)
   else none
 
-/-- `str.isnumeric()` on the characters the generators use: decimal digits as above plus SUPERSCRIPT TWO -/
-def isNumericChar (c : Char) : Bool := (digitVal c).isSome || c = '²'
+/-- the `str` predicate of the AASd-128 check on the characters the generators use — `isnumeric()`: decimal digits as
+    above plus SUPERSCRIPT TWO; `isdecimal()`: decimal digits only. Which one the code calls is extracted from the source
+    on every run (`Basyx.Gen.TreeCfg.aasd128Decimal`). -/
+def isNumericChar (c : Char) : Bool := (digitVal c).isSome || (!Basyx.Gen.TreeCfg.aasd128Decimal && c = '²')
 def isNumeric (s : Str) : Bool := !s.isEmpty && s.all isNumericChar
 
 /-- whitespace stripped by `int()` (the ASCII part of `str.isspace`) -/
@@ -201,7 +204,7 @@ def mkModelReference (keys : List Key) (type : Cls) : Except Err MRef :=
   | k0 :: rest =>
     if !k0.type.isAasIdentifiable then .error (.aascv 123)
     else if rest.any (fun k => !k.type.isFragmentKeyElement) then .error (.aascv 125)
-    else if !((keys.getLast?.map (·.type.isGenericFragmentKey)).getD false)
+    else if (Basyx.Gen.TreeCfg.aasd126Strict || !((keys.getLast?.map (·.type.isGenericFragmentKey)).getD false))
          && keys.dropLast.any (fun k => k.type.isGenericFragmentKey) then .error (.aascv 126)
     else match checkPairs keys with
       | some n => .error (.aascv n)
